@@ -11,82 +11,71 @@ protocol has no definition call after the first `start`.
 A call on a sub-machine (`curr_state_->sub_sm->start()/run()/stop()/isTerminated()`) goes
 through `SubOps`; `ops n` ties the knot by recursion on the nesting depth.
 
-`stop()` exists in two variants: `fix = false` is the code of /repo as found (the active
-sub-machine is left running), `fix = true` is the code after patches/C16-01 (the active
-sub-machine is stopped first).  The driver, the refinement and the balance theorems use
-`fix = true`; the counterexample uses `fix = false`.
+This is the code with patches/C16-01 (stop() stops the active sub-machine first) and
+patches/C16-02 (`cb_level_` stays raised while start()/stop()/run() call into the sub-machine).
+The code without them is in Arena.lean (`Fix`), where the counterexamples are proved.
 
-Callbacks run `Script`s whose calls target the owning machine.  The C++ enters
-`start/stop/run` again; the model evaluates the entry checks of those functions on the current
-`Rt` (`startReject/stopReject/runReject`).  If a check let the call through the model emits
-`unmodelled` (theorem `C16_reentrancy_rejected`: this never happens).
+Callbacks run `Script`s whose calls target the owning machine or one of its ancestors (`Ctx`:
+the ancestors are all inside a call when a callback of a descendant runs).  The C++ enters
+`start/stop/run` of the target again; the model evaluates the entry checks of those functions on
+the target's `Rt` (`startReject/stopReject/runReject`).  If a check let the call through the
+model emits `unmodelled` (theorem `C16_reentrancy_rejected`: this never happens).  A target that
+is neither the owner nor an ancestor is `foreign` here (Arena.lean executes those).
 -/
-import TboxModel.C16.Syntax
+import TboxModel.C16.Rt
 namespace Tbox.C16
 
-structure Rt where
-  running : Bool := false
-  curr : Option StateId := none
-  last : Option StateId := none
-  next : Option StateId := none
-  cbLevel : Nat := 0
-deriving Repr, DecidableEq
+/-- what a machine knows of its ancestors while one of them calls down: index and run-time record
+at that moment (nearest first) -/
+abbrev Ctx := List (Nat × Rt)
 
-/-- the five observers of the public API -/
-def Rt.view (rt : Rt) : View :=
-  { curr := optInt rt.curr, last := optInt rt.last, next := optInt rt.next,
-    running := rt.running, term := rt.curr == some 0 }
+def lookupCtx (ctx : Ctx) (k : Nat) : Option Rt := (ctx.find? (fun p => p.1 == k)).map (·.2)
 
-/-- entry checks of `start()`: `some r` = returns `r` at once -/
-def startReject (rt : Rt) : Option Bool :=
-  if rt.running then some false
-  else if rt.cbLevel ≠ 0 then some false
-  else none
+/-- the machine a script op addresses: the owner, one of its ancestors, or none of these -/
+def targetRt (self : Nat) (rt : Rt) (ctx : Ctx) : Option Nat → Option Rt
+  | none => some rt
+  | some k => if k = self then some rt else lookupCtx ctx k
 
-/-- entry checks of `stop()` -/
-def stopReject (rt : Rt) : Option Unit :=
-  if !rt.running then some ()
-  else if rt.cbLevel ≠ 0 then some ()
-  else none
-
-/-- entry checks of `run()` -/
-def runReject (rt : Rt) : Option Bool :=
-  if !rt.running then some false
-  else if rt.cbLevel ≠ 0 then some false
-  else none
-
-/-- one call made by a callback of the machine whose run-time record is `rt` -/
-def scriptCall (rt : Rt) : Call → Kind
+/-- one call on the machine whose run-time record is `rt`, made from a callback -/
+def scriptCall (rt : Rt) (t : Option Nat) : Call → Kind
   | .start =>
       match startReject rt with
-      | some r => .call .start r rt.view rt.view
+      | some r => .call t .start r rt.view rt.view
       | none => .unmodelled
   | .stop =>
       match stopReject rt with
-      | some _ => .call .stop false rt.view rt.view
+      | some _ => .call t .stop false rt.view rt.view
       | none => .unmodelled
   | .restart =>
       -- impl_->stop(); return impl_->start();
       match stopReject rt with
       | some _ =>
           match startReject rt with
-          | some r => .call .restart r rt.view rt.view
+          | some r => .call t .restart r rt.view rt.view
           | none => .unmodelled
       | none => .unmodelled
   | .run e =>
       match runReject rt with
-      | some r => .call (.run e) r rt.view rt.view
+      | some r => .call t (.run e) r rt.view rt.view
       | none => .unmodelled
 
-def runScript (rt : Rt) : Script → Trace
-  | [] => []
-  | .obs :: rest => here (.obs rt.view) :: runScript rt rest
-  | .call c :: rest => here (scriptCall rt c) :: runScript rt rest
+def scriptOp (self : Nat) (rt : Rt) (ctx : Ctx) : SOp → Kind
+  | .obs t =>
+      match targetRt self rt ctx t with
+      | some r => .obs t r.view
+      | none => .foreign (t.getD 0)
+  | .call t c =>
+      match targetRt self rt ctx t with
+      | some r => scriptCall r t c
+      | none => .foreign (t.getD 0)
+
+def runScript (self : Nat) (rt : Rt) (ctx : Ctx) (sc : Script) : Trace :=
+  sc.map fun op => here (scriptOp self rt ctx op)
 
 /-- `if (f) f(event)`: the semantic event (with `has` = the callback exists) and what the
 callback body does -/
-def probe (mk : Bool → Kind) (p : Option Script) (rt : Rt) : Trace :=
-  here (mk p.isSome) :: (match p with | some sc => runScript rt sc | none => [])
+def probe (mk : Bool → Kind) (p : Option Script) (self : Nat) (rt : Rt) (ctx : Ctx) : Trace :=
+  here (mk p.isSome) :: (match p with | some sc => runScript self rt ctx sc | none => [])
 
 section Level
 variable {Sub : Type}
@@ -96,7 +85,7 @@ abbrev M (Sub : Type) := MachOf Rt Sub
 def isTerminated (m : M Sub) : Bool := m.rt.curr == some 0
 
 /-- `Impl::start()` -/
-def start (ops : SubOps Sub) (m : M Sub) : M Sub × Bool × Trace :=
+def start (ops : SubOps Ctx Sub) (ctx : Ctx) (m : M Sub) : M Sub × Bool × Trace :=
   match startReject m.rt with
   | some r => (m, r, [])
   | none =>
@@ -105,17 +94,18 @@ def start (ops : SubOps Sub) (m : M Sub) : M Sub × Bool × Trace :=
     | some st =>
       let rt1 : Rt := { m.rt with running := true, curr := some st.id }
       let rtA : Rt := { rt1 with cbLevel := rt1.cbLevel + 1 }
-      let t1 := probe (.enter st.id 0) st.enter rtA
+      let t1 := probe (.enter st.id ev0) st.enter m.mid rtA ctx
       let rt2 : Rt := { rtA with cbLevel := rtA.cbLevel - 1 }
       let m2 : M Sub := { m with rt := rt2 }
       match st.sub with
       | none => (m2, true, t1)
       | some sub =>
-        let r := ops.start sub
+        -- the sub-machine starts while `cb_level_` is still raised (patches/C16-02)
+        let r := ops.start ((m.mid, rtA) :: ctx) sub
         (m2.setSub st.id r.1, true, t1 ++ lift st.id r.2.2)
 
-/-- `Impl::stop()`; `fix` = with patches/C16-01 applied -/
-def stop (fix : Bool) (ops : SubOps Sub) (m : M Sub) : M Sub × Trace :=
+/-- `Impl::stop()` -/
+def stop (ops : SubOps Ctx Sub) (ctx : Ctx) (m : M Sub) : M Sub × Trace :=
   match stopReject m.rt with
   | some _ => (m, [])
   | none =>
@@ -123,45 +113,44 @@ def stop (fix : Bool) (ops : SubOps Sub) (m : M Sub) : M Sub × Trace :=
     | none => (m, [here .unmodelled])       -- `curr_state_->` on nullptr
     | some c =>
       let cs := m.stateOf c
+      let rtA : Rt := { m.rt with cbLevel := m.rt.cbLevel + 1 }
+      -- the active sub-machine is stopped first (patches/C16-01), under the raised guard (C16-02)
       let d : M Sub × Trace :=
-        if fix then
-          match cs.sub with
-          | some sub => let r := ops.stop sub; (m.setSub c r.1, lift c r.2)
-          | none => (m, [])
-        else (m, [])
+        match cs.sub with
+        | some sub => let r := ops.stop ((m.mid, rtA) :: ctx) sub; (m.setSub c r.1, lift c r.2)
+        | none => (m, [])
       let m1 := d.1
-      let rtA : Rt := { m1.rt with cbLevel := m1.rt.cbLevel + 1 }
-      let t1 := probe (.exit c 0) cs.exit rtA
+      let t1 := probe (.exit c ev0) cs.exit m.mid rtA ctx
       let rt2 : Rt := { rtA with cbLevel := rtA.cbLevel - 1, curr := none, running := false }
       ({ m1 with rt := rt2 }, d.2 ++ t1)
 
 /-- the event-handler block of `run()`: `events.find(event.id)`, else `default_event` -/
-def handlerPhase (cs : StateDef Sub) (rt : Rt) (e : EventId) : Int × Trace :=
-  match cs.events.find? (fun p => p.1 == e) with
-  | some p => (p.2.eval e, here (.handler cs.id (some p.1) e (p.2.eval e)) :: runScript rt p.2.script)
+def handlerPhase (cs : StateDef Sub) (self : Nat) (rt : Rt) (ctx : Ctx) (e : Event) : Int × Trace :=
+  match cs.events.find? (fun p => p.1 == e.id) with
+  | some p => (p.2.eval e, here (.handler cs.id (some p.1) e (p.2.eval e)) :: runScript self rt ctx p.2.script)
   | none =>
     match cs.dflt with
-    | some h => (h.eval e, here (.handler cs.id none e (h.eval e)) :: runScript rt h.script)
+    | some h => (h.eval e, here (.handler cs.id none e (h.eval e)) :: runScript self rt ctx h.script)
     | none => (-1, [])
 
 /-- the `std::find_if` over `routes` with its lambda; `i` = index of the head of `rs` -/
-def routeScan (sid : StateId) (rt : Rt) (e : EventId) : Nat → List Route → Option (Nat × Route) × Trace
+def routeScan (sid : StateId) (self : Nat) (rt : Rt) (ctx : Ctx) (e : Event) : Nat → List Route → Option (Nat × Route) × Trace
   | _, [] => (none, [])
   | i, r :: rs =>
-    if !r.matchesEvent e then routeScan sid rt e (i + 1) rs
+    if !r.matchesEvent e then routeScan sid self rt ctx e (i + 1) rs
     else
       match r.guard with
       | none => (some (i, r), [])
       | some g =>
-        let t := here (.guard sid i e (g.eval e)) :: runScript rt g.script
+        let t := here (.guard sid i e (g.eval e)) :: runScript self rt ctx g.script
         if g.eval e then (some (i, r), t)
         else
-          let x := routeScan sid rt e (i + 1) rs
+          let x := routeScan sid self rt ctx e (i + 1) rs
           (x.1, t ++ x.2)
 
 /-- the tail of `run()` from `next_state_ = findState(next_state_id)` on; `m` is the machine
 with `cb_level_` as at function entry, `c` the id of `curr_state_` -/
-def transition (ops : SubOps Sub) (m : M Sub) (c : StateId) (e : EventId) (nextId : StateId)
+def transition (ops : SubOps Ctx Sub) (ctx : Ctx) (m : M Sub) (c : StateId) (e : Event) (nextId : StateId)
     (ridx : Option Nat) (action : Option Script) : M Sub × Bool × Trace :=
   let cs := m.stateOf c
   match m.resolve nextId with
@@ -169,39 +158,39 @@ def transition (ops : SubOps Sub) (m : M Sub) (c : StateId) (e : EventId) (nextI
   | some ts =>
     let rt0 : Rt := { m.rt with next := some ts.id }
     let rtA : Rt := { rt0 with cbLevel := rt0.cbLevel + 1 }
-    let tExit := probe (.exit c e) cs.exit rtA
+    let tExit := probe (.exit c e) cs.exit m.mid rtA ctx
     let rtB : Rt := { rtA with last := some c, curr := none }
-    let tAct := probe (.action c ridx e) action rtB
+    let tAct := probe (.action c ridx e) action m.mid rtB ctx
     let rtC : Rt := { rtB with curr := some ts.id, next := none }
-    let tEnter := probe (.enter ts.id e) ts.enter rtC
-    let tCb := probe (.notify c ts.id e) m.cb rtC
+    let tEnter := probe (.enter ts.id e) ts.enter m.mid rtC ctx
+    let tCb := probe (.notify c ts.id e) m.cb m.mid rtC ctx
     let rtD : Rt := { rtC with cbLevel := rtC.cbLevel - 1 }
     let mD : M Sub := { m with rt := rtD }
     match ts.sub with
     | none => (mD, true, tExit ++ tAct ++ tEnter ++ tCb)
     | some sub =>
-      let r1 := ops.start sub
-      let r2 := ops.run r1.1 e
+      let r1 := ops.start ((m.mid, rtC) :: ctx) sub
+      let r2 := ops.run ((m.mid, rtC) :: ctx) r1.1 e
       (mD.setSub ts.id r2.1, true, tExit ++ tAct ++ tEnter ++ tCb ++ lift ts.id (r1.2.2 ++ r2.2.2))
 
 /-- `run()` after the sub-machine block -/
-def runOwn (ops : SubOps Sub) (m : M Sub) (c : StateId) (e : EventId) : M Sub × Bool × Trace :=
+def runOwn (ops : SubOps Ctx Sub) (ctx : Ctx) (m : M Sub) (c : StateId) (e : Event) : M Sub × Bool × Trace :=
   let cs := m.stateOf c
   let rtA : Rt := { m.rt with cbLevel := m.rt.cbLevel + 1 }
-  let h := handlerPhase cs rtA e
+  let h := handlerPhase cs m.mid rtA ctx e
   if h.1 = -1 then
-    let sc := routeScan c rtA e 0 cs.routes
+    let sc := routeScan c m.mid rtA ctx e 0 cs.routes
     match sc.1 with
     | none => (m, false, h.2 ++ sc.2)
     | some (i, r) =>
-      let x := transition ops m c e r.to (some i) r.action
+      let x := transition ops ctx m c e r.to (some i) r.action
       (x.1, x.2.1, h.2 ++ sc.2 ++ x.2.2)
   else
-    let x := transition ops m c e h.1 none none
+    let x := transition ops ctx m c e h.1 none none
     (x.1, x.2.1, h.2 ++ x.2.2)
 
 /-- `Impl::run(Event)` -/
-def run (ops : SubOps Sub) (m : M Sub) (e : EventId) : M Sub × Bool × Trace :=
+def run (ops : SubOps Ctx Sub) (ctx : Ctx) (m : M Sub) (e : Event) : M Sub × Bool × Trace :=
   match runReject m.rt with
   | some r => (m, r, [])
   | none =>
@@ -209,23 +198,19 @@ def run (ops : SubOps Sub) (m : M Sub) (e : EventId) : M Sub × Bool × Trace :=
     | none => (m, false, [here .unmodelled])     -- `curr_state_->` on nullptr
     | some c =>
       match (m.stateOf c).sub with
-      | none => runOwn ops m c e
+      | none => runOwn ops ctx m c e
       | some sub =>
-        let r := ops.run sub e
+        -- `cb_level_` is raised while the sub-machine runs / is stopped (patches/C16-02)
+        let down : Ctx := (m.mid, { m.rt with cbLevel := m.rt.cbLevel + 1 }) :: ctx
+        let r := ops.run down sub e
         if !ops.isTerminated r.1 then (m.setSub c r.1, r.2.1, lift c r.2.2)
         else
-          let s := ops.stop r.1
-          let x := runOwn ops (m.setSub c s.1) c e
+          let s := ops.stop down r.1
+          let x := runOwn ops ctx (m.setSub c s.1) c e
           (x.1, x.2.1, lift c (r.2.2 ++ s.2) ++ x.2.2)
 
-/-- `StateMachine::restart()`: `impl_->stop(); return impl_->start();` -/
-def restart (fix : Bool) (ops : SubOps Sub) (m : M Sub) : M Sub × Bool × Trace :=
-  let s := stop fix ops m
-  let r := start ops s.1
-  (r.1, r.2.1, s.2 ++ r.2.2)
-
-def levelOps (fix : Bool) (ops : SubOps Sub) : SubOps (M Sub) :=
-  { start := start ops, stop := stop fix ops, run := run ops, isTerminated := isTerminated,
+def levelOps (ops : SubOps Ctx Sub) : SubOps Ctx (M Sub) :=
+  { start := start ops, stop := stop ops, run := run ops, isTerminated := isTerminated,
     isRunning := fun m => m.rt.running }
 
 end Level
@@ -235,20 +220,21 @@ def Mach : Nat → Type
   | 0 => MachOf Rt Empty
   | n + 1 => MachOf Rt (Mach n)
 
-def subOps (fix : Bool) : (n : Nat) → SubOps (Mach n)
-  | 0 => levelOps fix emptyOps
-  | n + 1 => levelOps fix (subOps fix n)
+def subOps : (n : Nat) → SubOps Ctx (Mach n)
+  | 0 => levelOps emptyOps
+  | n + 1 => levelOps (subOps n)
 
-/-- apply one API call to the root machine: new machine, return value (`false` for `stop`), trace -/
-def applyCall (fix : Bool) (n : Nat) (m : Mach n) (c : Call) : Mach n × Bool × Trace :=
+/-- apply one API call to the root machine (no ancestors): new machine, return value (`false`
+for `stop`), trace -/
+def applyCall (n : Nat) (m : Mach n) (c : Call) : Mach n × Bool × Trace :=
   match c with
-  | .start => (subOps fix n).start m
-  | .stop => let r := (subOps fix n).stop m; (r.1, false, r.2)
+  | .start => (subOps n).start [] m
+  | .stop => let r := (subOps n).stop [] m; (r.1, false, r.2)
   | .restart =>
-      let s := (subOps fix n).stop m
-      let r := (subOps fix n).start s.1
+      let s := (subOps n).stop [] m
+      let r := (subOps n).start [] s.1
       (r.1, r.2.1, s.2 ++ r.2.2)
-  | .run e => (subOps fix n).run m e
+  | .run e => (subOps n).run [] m e
 
 /-- the run-time record of the root -/
 def rootRt : (n : Nat) → Mach n → Rt
@@ -257,11 +243,11 @@ def rootRt : (n : Nat) → Mach n → Rt
 
 /-- run a call sequence; the observable is, per call, (return value, trace, the root's five
 observers after the call) -/
-def exec (fix : Bool) (n : Nat) (m : Mach n) : List Call → Mach n × List (Bool × Trace × View)
+def exec (n : Nat) (m : Mach n) : List Call → Mach n × List (Bool × Trace × View)
   | [] => (m, [])
   | c :: cs =>
-    let r := applyCall fix n m c
-    let rest := exec fix n r.1 cs
+    let r := applyCall n m c
+    let rest := exec n r.1 cs
     (rest.1, (r.2.1, r.2.2, (rootRt n r.1).view) :: rest.2)
 
 /-! ### the definition API (`newState / addRoute / addEvent / setInitState / setSubStateMachine /
